@@ -35,7 +35,7 @@ Lemma thresholds_ok_true : thresholds_ok = true.
 Proof. vm_compute. reflexivity. Qed.
 
 Lemma sizing_formulas_as_modelled :
-  kept_per_worker_is_ceil = true /\ dropped_per_worker_is_ceil = true /\ kept_rate_is_uint32 = true.
+  kept_per_worker_is_ceil = true /\ dropped_per_worker_is_ceil = true.
 Proof. vm_compute. repeat split. Qed.
 
 Lemma add_queue_depth_pos : (0 < add_queue_depth)%N.
@@ -620,7 +620,7 @@ Proof.
         specialize (Hm H0). lia. }
       revert Hinv'. cbn [SentCache.step].
       destruct (reasons_set h (rs c) reason) as [rs' idx]. cbn [fst]. intros Hinv'.
-      set (v := {| k_rate := (rate mod two32)%N; k_reason := (idx mod two32)%N; k_desc := desc; k_sev := sev; k_link := link; k_span := span |}) in *.
+      set (v := {| k_rate := store_rate rate; k_reason := (idx mod two32)%N; k_desc := desc; k_sev := sev; k_link := link; k_span := span |}) in *.
       destruct (lru_add_keep (kcap c) x id v (kept c) r T (proj1 Hinv) Hx Hne Hincl Hc1) as [Hx' Hincl'].
       apply (IH _ (T ++ [id]) r Hinv'); cbn [kept kcap]; [exact Hx'|exact Hincl'|exact Hnr|].
       rewrite app_cons_assoc. exact Hcard.
@@ -844,16 +844,16 @@ Theorem kept_recent_record c x rate reason d e l sp ops :
   (card (touched_others x ops) < min_cap (kcap c) ops)%N ->
   let c2 := run (fst (step c (RecKept x rate reason d e l sp))) ops in
   chk_check x (chk c2) = false ->
-  (exists d' e' l' s', snd (step c2 (ChkTrace x)) = AKept (rate mod two32) d' e' l' s' reason) /\
+  (exists d' e' l' s', snd (step c2 (ChkTrace x)) = AKept (store_rate rate) d' e' l' s' reason) /\
   (forall ann, recent_contains x c2 = false ->
-     exists d' e' l' s', snd (step c2 (ChkSpan x ann)) = AKept (rate mod two32) d' e' l' s' reason).
+     exists d' e' l' s', snd (step c2 (ChkSpan x ann)) = AKept (store_rate rate) d' e' l' s' reason).
 Proof.
   intros Hinv Hwf Hpos Hcol Hlen Hnr Hcard.
   pose proof (step_inv c (RecKept x rate reason d e l sp) Hinv) as Hinv1.
   pose proof (reasons_set_get (rs c) reason Hwf Hcol Hlen) as Hget.
   revert Hinv1. cbn [SentCache.step]. destruct (reasons_set h (rs c) reason) as [rs' idx]. cbn [fst].
   destruct Hget as [Hget Hidx].
-  set (v := {| k_rate := (rate mod two32)%N; k_reason := (idx mod two32)%N; k_desc := d; k_sev := e; k_link := l; k_span := sp |}).
+  set (v := {| k_rate := store_rate rate; k_reason := (idx mod two32)%N; k_desc := d; k_sev := e; k_link := l; k_span := sp |}).
   destruct (lru_add_head (kcap c) x v (kept c) Hpos (proj1 Hinv)) as [t Ht].
   set (c1 := {| kept := lru_add (kcap c) x v (kept c); kcap := kcap c; rs := rs'; chk := chk c; recent := recent c; now := now c |}).
   intros Hinv1 Hnd.
